@@ -26,7 +26,8 @@ ASSUMPTIONS = [
     "condition_variable::wait_for(lock, dur, pred) returns pred() and holds the lock on return",
     "times are multiples of MIN_TD, so x+MIN_TD is the immediate successor of x",
 ]
-DECIDED = ["a cycle time term", "b wait loop", "c stop", "d end of run", "e due wall-clock alarms", "f push wake (shared with C16.d)"]
+DECIDED = ["a cycle time term", "b wait loop", "c stop", "d end of run", "e due wall-clock alarms", "f push wake (shared with C16.d)",
+           'g stop flag tested again after the blocking advance (= C02.d)', 'h push phase folds the future slot of every push-source node it did not run (= C02.c)']
 NOT_DECIDED = ["timing / latency", "OS scheduling", "host clock monotonicity"]
 
 
